@@ -177,6 +177,9 @@ func (e *Evaluator) reading(clauses []*cypher.ReadingClause, rows []Env) ([]Env,
 				if err != nil {
 					return nil, err
 				}
+				if !matched && m.Optional && e.Dev.LeadingOptionalMatchYieldsNoRow && len(r) == 0 {
+					continue
+				}
 				if !matched && m.Optional {
 					ext := r.clone()
 					for _, v := range patternVariables(m.Pattern) {
@@ -416,6 +419,23 @@ func (e *Evaluator) project(p *cypher.Projection, rows []Env) (*projected, error
 		}
 		if len(groups) == 0 && !hasKeys {
 			groups = append(groups, &group{}) // aggregation without grouping keys over no rows yields one row
+		}
+		if len(groups) == 0 && hasKeys && len(implicit) == 0 {
+			constantKeys := true
+			for _, it := range items {
+				if !it.agg {
+					mentions := false
+					walkExpr(it.expr, func(n cypher.Expression) {
+						if _, ok := n.(*cypher.Variable); ok {
+							mentions = true
+						}
+					})
+					constantKeys = constantKeys && !mentions
+				}
+			}
+			if constantKeys {
+				return nil, unknown("aggregation whose only grouping keys are constants over no rows")
+			}
 		}
 		for _, g := range groups {
 			env := Env{}
